@@ -3,8 +3,6 @@
 // Contracts for package ctlog, checked by /verif's govc (comment-only file: no declarations).
 package ctlog
 
-//@ ghost field ctlog.Log.gseq LeafSeq
-
 //@ func ctlog.signTreeHead props C01 C11
 //@   defines ret1 == nil ==> isSignedFor(ret0, c, tree)
 
@@ -17,7 +15,7 @@ package ctlog
 //@   defines ret1 == nil ==> ret0 == gzipOf(data)
 
 //@ func ctlog.(*Log).edgeTilesHashReader props C01 C08
-//@   defines readerSeq(ret) == l.gseq
+//@   defines readerSeq(ret) == seqOfTree(l.tree.Tree)
 
 //@ func ctlog.hashTreeHead props C01
 //@   ensures [C01] fields: ret1 == nil ==> ret0.N == n && ret0.Time == t
@@ -42,18 +40,18 @@ package ctlog
 
 //@ func ctlog.(*Log).sequencePool props C01 C02 C03 C04 C06 C08 C17
 //@   requires l != nil && p != nil && l.c != nil
-//@   requires slenQ(l.gseq) == l.tree.N && mth(l.gseq) == l.tree.Hash
+//@   requires realizable(l.tree.Tree)
 //@   requires !closed(p.done)
 //@   init gReplaceOK == 0 && gReplaceTried == 0 && gAppliedOK == 0 && gCachePuts == 0 && gFetches == 0
 //@   init gUp == emptyset("set[string]") && gUpTried == emptyset("set[string]") && gDiscarded == emptyset("set[string]")
 //@   invariant "range p.pendingLeaves" bound: rangeindex < len(p.pendingLeaves)
 //@   invariant "range p.pendingLeaves" count: n == old(l.tree.N) + rangeindex + 1
-//@   invariant "range p.pendingLeaves" overlay: hashReader != nil && isPrefix(old(l.gseq), hashReader.gseq) && slenQ(hashReader.gseq) == n
+//@   invariant "range p.pendingLeaves" overlay: hashReader != nil && isPrefix(seqOfTree(old(l.tree.Tree)), hashReader.gseq) && slenQ(hashReader.gseq) == n
 //@   invariant "range p.pendingLeaves" no-ops: gReplaceTried == 0 && gUpTried == emptyset("set[string]") && gDiscarded == emptyset("set[string]") && gAppliedOK == 0 && gCachePuts == 0
 //@   invariant "range tiles" no-ops2: gReplaceTried == 0 && gUpTried == emptyset("set[string]") && gDiscarded == emptyset("set[string]") && gAppliedOK == 0 && gCachePuts == 0
 //@   call ctlog.LockBackend.Replace requires [C01,C06] cas-old: c_old == old(l.lockCheckpoint) && l.lockCheckpoint == old(l.lockCheckpoint)
 //@   call ctlog.LockBackend.Replace requires [C01] time: timestamp > old(l.tree.Time) && tree.Time == timestamp
-//@   call ctlog.LockBackend.Replace requires [C01,C08] extends: tree.N == slenQ(hashReader.gseq) && tree.Hash == mth(hashReader.gseq) && isPrefix(old(l.gseq), hashReader.gseq)
+//@   call ctlog.LockBackend.Replace requires [C01,C08] extends: tree.N == slenQ(hashReader.gseq) && tree.Hash == mth(hashReader.gseq) && isPrefix(seqOfTree(old(l.tree.Tree)), hashReader.gseq)
 //@   call ctlog.LockBackend.Replace requires [C01,C07] size: tree.N == old(l.tree.N) + len(p.pendingLeaves)
 //@   call ctlog.LockBackend.Replace requires [C01,C11] signed: c_new == checkpoint && isSignedFor(checkpoint, l.c, tree)
 //@   call ctlog.LockBackend.Replace requires [C01] once: gReplaceTried == 0
@@ -75,4 +73,112 @@ package ctlog
 //@   ensures [C01] at-most-one-cas: gReplaceTried <= 1
 //@   ensures [C01] state-advances-with-cas: gReplaceOK == 1 ==> l.tree.N == old(l.tree.N) + len(p.pendingLeaves) && l.tree.Time > old(l.tree.Time) && lockedBytes(l.lockCheckpoint) == gLastNew
 //@   ensures [C08] no-fetch: gFetches == 0
+//@   ensures [C01] history-extends: realizable(l.tree.Tree) && isPrefix(seqOfTree(old(l.tree.Tree)), seqOfTree(l.tree.Tree)) && l.tree.Time >= old(l.tree.Time)
 //@   ensures [C06] nonfatal-keeps-running: err != nil ==> Is(err, errFatal)
+
+// ---- start-up: creation and loading
+
+//@ pure func opensTo(b bytes, config Ref, c torchwood.Checkpoint) bool
+//@ pure func ckTimeOf(b bytes) int
+//@ func ctlog.openCheckpoint props C01 C06 C08 C11
+//@   requires config != nil
+//@   returns [C06,C11] verifier: ret2 == nil ==> openedBy(n, b, vlist2(v1, iface(v2))) && isRFCVerifier(v1, config.Name, publicOf(config.Key)) && v1Found
+//@   returns [C06,C11] parsed: ret2 == nil ==> c == ckptOf(n.Text) && ret0 == c && ret1 == timestamp
+//@   returns [C06] name-and-extension: ret2 == nil ==> c.Origin == config.Name && c.Extension == ""
+//@   returns [C01] not-from-future: ret2 == nil ==> now >= timestamp
+//@   defines ret2 == nil ==> opensTo(b, config, ret0) && ckTimeOf(b) == ret1
+//@ pure func publicOf(k Ref) Ref
+//@ assume func ecdsa.(*PrivateKey).Public
+//@   ensures ret == publicOf(recv)
+
+//@ func ctlog.CreateLog props C01 C06
+//@   requires config != nil
+//@   init gCreateOK == 0 && gUp == emptyset("set[string]") && gUpTried == emptyset("set[string]") && gReplaceTried == 0 && gLockFetches == 0 && gFetchTried == emptyset("set[string]")
+//@   call ctlog.LockBackend.Create requires [C06] no-lock-entry: gLockFetches == 1 && gLockFetchFailed
+//@   call ctlog.LockBackend.Create requires [C06] no-published-checkpoint: gFetchTried["checkpoint"] && gFetchFailed["checkpoint"]
+//@   call ctlog.LockBackend.Create requires [C01,C06] empty-tree: c_new == checkpoint && isSignedFor(checkpoint, config, tree) && tree.N == 0 && tree.Hash == mth(emptySeq()) && tree.Time == timestamp
+//@   call ctlog.LockBackend.Create requires [C01] nothing-published-yet: !gUpTried["checkpoint"]
+//@   call ctlog.Backend.Upload "checkpoint" requires [C01] committed-first: gCreateOK == 1 && gCreateNew == c_data
+//@   ensures [C06] refuse-existing: gCreateOK <= 1 && gReplaceTried == 0
+//@   ensures [C01] publish-implies-create: gUpTried["checkpoint"] ==> gCreateOK == 1
+
+//@ func ctlog.LoadLog props C01 C03 C06 C08
+//@   requires config != nil
+//@   init gReplaceTried == 0 && gCreateOK == 0 && gAppliedOK == 0 && gDiscarded == emptyset("set[string]")
+//@   call tlog.TileHashReader requires [C08] verify-against-lock-tree: c_tree == c.Tree
+//@   call ctlog.applyStagedUploads requires [C03] recover-only-when-behind: c1.N < c.N && c_stagedUploads == stagedUploads
+//@   returns [C06] refuse-fork-or-ahead: ret1 == nil ==> c1.N <= c.N && (c1.N == c.N ==> c1.Hash == c.Hash)
+//@   returns [C06,C08] both-verified: ret1 == nil ==> opensTo(lockedBytes(lock), config, c) && ckTimeOf(lockedBytes(lock)) == timestamp && opensTo(sth, config, c1)
+//@   returns [C03] recovered: ret1 == nil ==> (c1.N < c.N ==> gAppliedOK == 1)
+//@   returns [C01,C08] state-from-lock: ret1 == nil ==> ret0 != nil && ret0.tree.N == c.N && ret0.tree.Hash == c.Hash && ret0.tree.Time == timestamp && ret0.lockCheckpoint == lock && ret0.edgeTiles == edgeTiles && ret0.c == config
+//@   ensures [C01,C06] no-lock-write: gReplaceTried == 0 && gCreateOK == 0
+//@   ensures [C04] no-discard: gDiscarded == emptyset("set[string]")
+
+// ---- admission, rotation, sequencer loop
+
+//@ guarded [C07] ctlog.Log.poolMu: currentPool, inSequencing, cacheRead, cacheLegacy
+//@ ghost var gAccepting bool
+//@ ghost var gIssuerDone set[bytes]
+
+//@ func ctlog.(*Log).AcceptingSubmissions props C17
+//@   modifies gAccepting
+//@   defines gAccepting == ret
+
+//@ func ctlog.(*Log).uploadIssuer props C04 C08
+//@   requires l != nil && l.c != nil && !held(&l.issuersMu)
+//@   init gUp == emptyset("set[string]") && gFetchTried == emptyset("set[string]")
+//@   modifies gIssuerDone
+//@   returns [C04,C08] stored-or-compared: ret == nil ==> found || l.issuers[fingerprint] || (gUp[path] && gUpData[path] == issuer && gUpImm[path]) || (gFetchTried[path] && !gFetchFailed[path] && old__1 == issuer)
+//@   defines ret == nil ==> gIssuerDone == upd(old(gIssuerDone), issuer, true)
+//@   defines ret != nil ==> gIssuerDone == old(gIssuerDone)
+//@   ensures [C04] unlocks: !held(&l.issuersMu)
+
+// Cancel functions stored in pool.lowPriority are created in addLeafToPool as func() { close(cancelChan) } over a
+// channel private to one waiter; calling one touches no log or pool state.
+//@ assume func ctlog.pool.lowPriority#elem
+
+//@ func ctlog.(*Log).cacheGet props C07
+//@   requires held(&l.poolMu)
+
+//@ func ctlog.(*Log).addLeafToPool props C02 C04 C07 C17
+//@   requires l != nil && l.c != nil && leaf != nil && l.currentPool != nil && !held(&l.poolMu) && !held(&l.issuersMu)
+//@   init gIssuerDone == emptyset("set[bytes]")
+//@   invariant "range leaf.Issuers" issuers-done: forall k int :: 0 <= k && k <= rangeindex ==> gIssuerDone[leaf.Issuers[k]]
+//@   invariant "range leaf.Issuers" bound: rangeindex < len(leaf.Issuers)
+//@   invariant "range leaf.Issuers" lock-free: !held(&l.poolMu) && !held(&l.issuersMu) && l.currentPool != nil
+//@   returns [C04] issuers-first: ret1 == "sequencer" ==> (forall k int :: 0 <= k && k < len(leaf.Issuers) ==> gIssuerDone[leaf.Issuers[k]])
+//@   returns [C07,C17] only-sequencer-grows: ret1 != "sequencer" ==> l.currentPool.pendingLeaves == old(l.currentPool.pendingLeaves)
+//@   returns [C17] bound: (ret1 == "sequencer" && l.c.PoolSize > 0 && old(len(l.currentPool.pendingLeaves)) <= l.c.PoolSize) ==> len(l.currentPool.pendingLeaves) <= l.c.PoolSize
+//@   returns [C17] one-at-a-time: len(l.currentPool.pendingLeaves) <= old(len(l.currentPool.pendingLeaves)) + 1 && len(l.currentPool.pendingLeaves) >= old(len(l.currentPool.pendingLeaves))
+//@   returns [C17] full-rejects-low-priority: (l.c.PoolSize > 0 && old(len(l.currentPool.pendingLeaves)) >= l.c.PoolSize && lowPriority) ==> ret1 != "sequencer"
+//@   returns [C17] full-evicts-same-size: (ret1 == "sequencer" && l.c.PoolSize > 0 && old(len(l.currentPool.pendingLeaves)) >= l.c.PoolSize) ==> len(l.currentPool.pendingLeaves) == old(len(l.currentPool.pendingLeaves))
+//@   returns [C17] full-evicts-one-low: (ret1 == "sequencer" && l.c.PoolSize > 0 && old(len(l.currentPool.pendingLeaves)) >= l.c.PoolSize) ==> len(l.currentPool.lowPriority) == old(len(l.currentPool.lowPriority)) - 1
+//@   returns [C17] full-evicts-only-for-high: (ret1 == "sequencer" && l.c.PoolSize > 0 && old(len(l.currentPool.pendingLeaves)) >= l.c.PoolSize) ==> !lowPriority
+//@   returns [C07] registered: ret1 == "sequencer" ==> has(p.byHash, h)
+//@   returns [C17] closed-pool-refuses: old(l.currentPool.err) != nil && ret1 != "issuer" ==> ret1 == "closed"
+//@   ensures [C07] unlocks: !held(&l.poolMu)
+
+//@ func ctlog.(*Log).sequence props C01 C07 C17
+//@   requires l != nil && l.c != nil && l.currentPool != nil && !held(&l.poolMu) && realizable(l.tree.Tree) && !closed(l.currentPool.done)
+//@   modifies gAccepting
+//@   defines gAccepting == false
+//@   call ctlog.(*Log).sequencePool requires [C07] rotated-out: c_p == old(l.currentPool) && c_p != l.currentPool && l.inSequencing == c_p.byHash && !held(&l.poolMu)
+//@   ensures [C07] in-sequencing-cleared: l.inSequencing == nil && !held(&l.poolMu)
+//@   ensures [C17] fresh-pool: l.currentPool != nil && l.currentPool != old(l.currentPool) && !closed(l.currentPool.done) && l.currentPool.err == nil
+//@   ensures [C01] tree-stays-realizable: ret == nil ==> realizable(l.tree.Tree)
+//@   ensures [C06,C17] error-is-fatal: ret != nil ==> Is(ret, errFatal)
+
+//@ func ctlog.(*Log).RunSequencer props C06 C17
+//@   requires l != nil && l.c != nil && l.currentPool != nil && !held(&l.poolMu) && realizable(l.tree.Tree) && !closed(l.currentPool.done)
+//@   invariant "for" alive: l.currentPool != nil && !held(&l.poolMu) && realizable(l.tree.Tree) && !closed(l.currentPool.done)
+//@   call ctlog.(*Log).sequence requires [C17] only-while-accepting: gAccepting
+//@   ensures [C17] stops-with-error: err != nil
+//@   ensures [C06,C17] pool-failed-and-released: closed(l.currentPool.done) && l.currentPool.err == err && !held(&l.poolMu)
+
+//@ census [C17] sequence-callers: callers ctlog.(*Log).sequence within ctlog.(*Log).RunSequencer in ctlog
+//@ census [C01,C06] lock-replace-sites: callers ctlog.LockBackend.Replace within ctlog.(*Log).sequencePool in ctlog
+//@ census [C01,C06] lock-create-sites: callers ctlog.LockBackend.Create within ctlog.CreateLog in ctlog
+//@ census [C01,C04] checkpoint-writers: callers ctlog.Backend.Upload "checkpoint" within ctlog.(*Log).sequencePool, ctlog.CreateLog in ctlog
+//@ census [C03,C04] discard-sites: callers ctlog.Backend.Discard within ctlog.(*Log).sequencePool in ctlog
+//@ census [C02,C07] cacheput-sites: callers ctlog.(*Log).cachePut within ctlog.(*Log).sequencePool in ctlog
+//@ census [C07,C17] sequencepool-callers: callers ctlog.(*Log).sequencePool within ctlog.(*Log).sequence in ctlog
